@@ -894,6 +894,8 @@ static Node *declaration(Token **rest, Token *tok, Type *basety, VarAttr *attr) 
         error_tok(ty->name, "variable length array with static storage duration or linkage");
       Obj *var = new_anon_gvar(ty);
       var->is_tls = attr->is_tls;
+      if (attr->align)
+        var->align = attr->align;
       push_scope(get_ident(ty->name))->var = var;
       if (equal(tok, "="))
         gvar_initializer(&tok, tok->next, var);
